@@ -217,14 +217,16 @@ theorem explicit_none_no_header (ct : ClassTables) (ps : List Param) (r : Reques
   unfold resolveExplicit
   cases List.foldl (step ct r) [] ps <;> simp
 
-/-- a parameter without `path_template` passes the (non-empty) field through under the field's name. -/
+/-- a parameter without `path_template` passes the (non-empty) field through under the field's
+(raw) name; the value is read from the disambiguated attribute path. -/
 theorem no_template_passes_value (ct : ClassTables) (r : Request) (f : List Char) :
-    contrib ct r ⟨f, none⟩ = if r f = [] then none else some (f, r f) := rfl
+    contrib ct r ⟨f, none⟩ =
+      if r (disambiguated f) = [] then none else some (f, r (disambiguated f)) := rfl
 
 /-- a parameter with a template contributes its non-empty capture under the template's key. -/
 theorem template_contributes_capture (ct : ClassTables) (r : Request) (f : List Char) (t : Template) :
     contrib ct r ⟨f, some t⟩ =
-      match capture ct t (r f) with
+      match capture ct t (r (disambiguated f)) with
       | some v => if v = [] then none else some (t.key, v)
       | none => none := rfl
 
@@ -914,9 +916,10 @@ theorem dstar_template_captures_all (ct : ClassTables) (k v : List Char) (hnl : 
   simp [scanCapture, scanPre, scanToks, scanTok, scanTail, andThen]
 
 /-- … so a parameter without `path_template` is the shorthand for `{field=**}` (routing.proto). -/
-theorem no_template_is_dstar_shorthand (ct : ClassTables) (r : Request) (f : List Char) (hnl : '\n' ∉ r f) :
+theorem no_template_is_dstar_shorthand (ct : ClassTables) (r : Request) (f : List Char)
+    (hnl : '\n' ∉ r (disambiguated f)) :
     contrib ct r ⟨f, none⟩ = contrib ct r ⟨f, some ⟨[], f, [.dstar], []⟩⟩ := by
-  simp only [contrib, dstar_template_captures_all ct f (r f) hnl]
+  simp only [contrib, dstar_template_captures_all ct f (r (disambiguated f)) hnl]
 
 /-- `{key=*}` captures the value iff it is one non-empty segment. -/
 theorem star_template_exact (ct : ClassTables) (k v : List Char) (hnl : '\n' ∉ v) :
@@ -1087,17 +1090,135 @@ theorem primary_path_first_nonempty (before : List (List Char)) (p : List Char) 
     simp only [primaryPath, List.cons_append, List.find?, hb0] at this ⊢
     simpa using this
 
+section AuxAttr
+
+theorem splitDotsAux_nodot (a : List Char) (h : '.' ∉ a) : splitDotsAux a = (a, []) := by
+  induction a with
+  | nil => rfl
+  | cons c cs ih =>
+    have hc : c ≠ '.' := by intro e; apply h; simp [e]
+    have hcs : '.' ∉ cs := by intro e; apply h; simp [e]
+    simp [splitDotsAux, hc, ih hcs]
+
+theorem splitDotsAux_append (a rest : List Char) (h : '.' ∉ a) :
+    splitDotsAux (a ++ '.' :: rest) = (a, splitDots rest) := by
+  induction a with
+  | nil => simp [splitDotsAux, splitDots]
+  | cons c cs ih =>
+    have hc : c ≠ '.' := by intro e; apply h; simp [e]
+    have hcs : '.' ∉ cs := by intro e; apply h; simp [e]
+    simp [splitDotsAux, hc, ih hcs]
+
+/-- `".".join(l).split(".") == l` for dot-free components -/
+theorem splitDots_joinDots : ∀ (l : List (List Char)), l ≠ [] → (∀ c ∈ l, '.' ∉ c) →
+    splitDots (joinDots l) = l := by
+  intro l
+  induction l with
+  | nil => intro h; exact absurd rfl h
+  | cons a r ih =>
+    intro _ hd
+    cases r with
+    | nil => simp [joinDots, splitDots, splitDotsAux_nodot a (hd a (by simp))]
+    | cons b r' =>
+      have := ih (by simp) (fun c hc => hd c (by simp [hc]))
+      simp only [splitDots] at this
+      simp only [joinDots, splitDots, splitDotsAux_append a _ (hd a (by simp))]
+      rw [this]
+
+/-- the components `split(".")` returns contain no dot -/
+theorem splitDots_nodot : ∀ (v : List Char), ∀ c ∈ splitDots v, '.' ∉ c := by
+  intro v
+  induction v with
+  | nil => intro c hc; simp [splitDots, splitDotsAux] at hc; subst hc; simp
+  | cons d r ih =>
+    intro c hc
+    by_cases hd : d = '.'
+    · subst hd
+      simp only [splitDots, splitDotsAux, if_true, List.mem_cons] at hc
+      rcases hc with hc | hc
+      · subst hc; simp
+      · exact ih c (by simpa [splitDots] using hc)
+    · simp only [splitDots, splitDotsAux, hd, if_false, List.mem_cons] at hc
+      rcases hc with hc | hc
+      · subst hc
+        intro hm
+        rcases List.mem_cons.mp hm with e | e
+        · exact hd e.symm
+        · exact ih _ (by simp [splitDots]) e
+      · exact ih c (by simp [splitDots, hc])
+
+theorem suffixSeg_nodot (c : List Char) (h : '.' ∉ c) : '.' ∉ suffixSeg c := by
+  unfold suffixSeg
+  split
+  · intro hm
+    rcases List.mem_append.mp hm with e | e
+    · exact h e
+    · simp at e
+  · exact h
+
+/-- every Python keyword is in RESERVED_NAMES; a reserved word with `_` appended is no keyword
+    (finite facts about the bridged tables) -/
+theorem keywords_reserved : ∀ w ∈ Pinned.pyKeywords, Pinned.reservedNames.contains w = true := by decide
+
+theorem suffixed_not_keyword : ∀ w ∈ Pinned.reservedNames, Pinned.pyKeywords.contains (w ++ "_") = false := by
+  decide
+
+theorem suffixSeg_ok (c : List Char) (hc : c ≠ []) :
+    (suffixSeg c ≠ [] && !Pinned.pyKeywords.contains (String.ofList (suffixSeg c))) = true := by
+  unfold suffixSeg
+  split
+  · rename_i hr
+    have hmem : String.ofList c ∈ Pinned.reservedNames := List.contains_iff_mem.mp hr
+    have h2 := suffixed_not_keyword _ hmem
+    have e : String.ofList (c ++ ['_']) = String.ofList c ++ "_" := by
+      rw [String.ofList_append]
+    rw [e, h2]; simp
+  · rename_i hr
+    have hk : Pinned.pyKeywords.contains (String.ofList c) = false := by
+      cases hkc : Pinned.pyKeywords.contains (String.ofList c) with
+      | false => rfl
+      | true =>
+        have := keywords_reserved _ (List.contains_iff_mem.mp hkc)
+        exact absurd this hr
+    rw [hk]; simp [hc]
+
+end AuxAttr
+
 /-- **Reserved words are read from the suffixed attribute and sent under the original name**:
 every variable contributes exactly one pair whose key is the raw variable name and whose value is
-read from `request.<name>_` if the (whole) name is in `RESERVED_NAMES`, from `request.<name>`
-otherwise. -/
+read from the attribute path in which every dot-separated segment that is in `RESERVED_NAMES`
+carries the `_` suffix (`FieldHeader.disambiguated` since a11332b). -/
 theorem implicit_reads_suffixed_sends_raw (hs : List (List Char)) (r : Request) :
     implicitPairs hs r = hs.map fun h =>
-      (h, if Pinned.reservedNames.contains (String.ofList h) then r (h ++ ['_']) else r h) := by
-  unfold implicitPairs disambiguated
-  apply List.map_congr_left
-  intro h _
-  split <;> rfl
+      (h, r (joinDots ((splitDots h).map fun seg =>
+        if Pinned.reservedNames.contains (String.ofList seg) then seg ++ ['_'] else seg))) := rfl
+
+/-- for an undotted name this is the familiar rule: `name_` iff the name is reserved. -/
+theorem disambiguated_undotted (h : List Char) (hd : '.' ∉ h) :
+    disambiguated h = if Pinned.reservedNames.contains (String.ofList h) then h ++ ['_'] else h := by
+  simp [disambiguated, splitDots, splitDotsAux_nodot h hd, joinDots, suffixSeg]
+
+/-- the segments of the attribute path are the segments of the field path, each suffixed iff reserved. -/
+theorem disambiguated_segments (raw : List Char) :
+    splitDots (disambiguated raw) = (splitDots raw).map suffixSeg := by
+  unfold disambiguated
+  apply splitDots_joinDots
+  · simp [splitDots]
+  · intro c hc
+    obtain ⟨c0, hc0, rfl⟩ := List.mem_map.mp hc
+    exact suffixSeg_nodot c0 (splitDots_nodot raw c0 hc0)
+
+/-- **Regression theorem for the repaired defects (§9-F1 and the keyword routing field)**: for
+EVERY field path without an empty segment — dotted or not, keywords anywhere — the attribute path
+the emitted code reads (`request.<disambiguated>`, implicit and explicit routing alike) is a valid
+Python attribute expression: no segment is a keyword. -/
+theorem attr_path_valid (raw : List Char) (hne : ∀ c ∈ splitDots raw, c ≠ []) :
+    attrPathValid (disambiguated raw) = true := by
+  unfold attrPathValid
+  rw [disambiguated_segments, List.all_eq_true]
+  intro c hc
+  obtain ⟨c0, hc0, rfl⟩ := List.mem_map.mp hc
+  exact suffixSeg_ok c0 (hne c0 hc0)
 
 /-- a header is sent iff the primary path has a variable; it then has one pair per variable
     (even for empty values). -/
@@ -1160,109 +1281,119 @@ theorem encode_no_separators (s : List Char) : '=' ∉ encode s ∧ '&' ∉ enco
 private def tt : ClassTables := ⟨[], [], []⟩
 
 /-- `projects/*/{table_location=instances/*}/tables/*` (routing.proto) is in the grammar -/
-example : (⟨[.lit "projects".toList, .star], "table_location".toList, [.lit "instances".toList, .star],
-    [.lit "tables".toList, .star]⟩ : Template).wf = true := by decide
+example : (⟨[.lit ['p', 'r', 'o', 'j', 'e', 'c', 't', 's'], .star], ['t', 'a', 'b', 'l', 'e', '_', 'l', 'o', 'c', 'a', 't', 'i', 'o', 'n'], [.lit ['i', 'n', 's', 't', 'a', 'n', 'c', 'e', 's'], .star],
+    [.lit ['t', 'a', 'b', 'l', 'e', 's'], .star]⟩ : Template).wf = true := by decide
 
 /-- `{routing_id=projects/*}/**` is in the grammar and captures `projects/p1` -/
-example : Model.Routing.capture tt ⟨[], "routing_id".toList, [.lit "projects".toList, .star], [.dstar]⟩
-    "projects/p1/x/y".toList = some "projects/p1".toList := by decide
+example : Model.Routing.capture tt ⟨[], ['r', 'o', 'u', 't', 'i', 'n', 'g', '_', 'i', 'd'], [.lit ['p', 'r', 'o', 'j', 'e', 'c', 't', 's'], .star], [.dstar]⟩
+    ['p', 'r', 'o', 'j', 'e', 'c', 't', 's', '/', 'p', '1', '/', 'x', '/', 'y'] = some ['p', 'r', 'o', 'j', 'e', 'c', 't', 's', '/', 'p', '1'] := by decide
 
 /-- `/v1/{name=shelves/*}/books/{book.id}:read` is a well-formed path with two variables -/
-example : WFPath [.lit "/v1/".toList, .var "name".toList (some "shelves/*".toList), .lit "/books/".toList,
-    .var "book.id".toList none, .lit ":read".toList] := by
+example : WFPath [.lit ['/', 'v', '1', '/'], .var ['n', 'a', 'm', 'e'] (some ['s', 'h', 'e', 'l', 'v', 'e', 's', '/', '*']), .lit ['/', 'b', 'o', 'o', 'k', 's', '/'],
+    .var ['b', 'o', 'o', 'k', '.', 'i', 'd'] none, .lit [':', 'r', 'e', 'a', 'd']] := by
   simp [WFPath]
 
 /-- last one wins, on routing.proto's example: two parameters share the key `routing_id`; the
     later one (`app_profile_id`) overrides the earlier (`table_name`) when both match -/
 example :
     resolveExplicit tt
-      [⟨"table_name".toList, some ⟨[], "routing_id".toList, [.lit "projects".toList, .star], [.dstar]⟩⟩,
-       ⟨"app_profile_id".toList, some ⟨[], "routing_id".toList, [.dstar], []⟩⟩]
-      (fun f => if f = "table_name".toList then "projects/p/instances/i".toList
-                else if f = "app_profile_id".toList then "prof".toList else [])
-    = [("routing_id".toList, "prof".toList)] := by decide
+      [⟨['t', 'a', 'b', 'l', 'e', '_', 'n', 'a', 'm', 'e'], some ⟨[], ['r', 'o', 'u', 't', 'i', 'n', 'g', '_', 'i', 'd'], [.lit ['p', 'r', 'o', 'j', 'e', 'c', 't', 's'], .star], [.dstar]⟩⟩,
+       ⟨['a', 'p', 'p', '_', 'p', 'r', 'o', 'f', 'i', 'l', 'e', '_', 'i', 'd'], some ⟨[], ['r', 'o', 'u', 't', 'i', 'n', 'g', '_', 'i', 'd'], [.dstar], []⟩⟩]
+      (fun f => if f = ['t', 'a', 'b', 'l', 'e', '_', 'n', 'a', 'm', 'e'] then ['p', 'r', 'o', 'j', 'e', 'c', 't', 's', '/', 'p', '/', 'i', 'n', 's', 't', 'a', 'n', 'c', 'e', 's', '/', 'i']
+                else if f = ['a', 'p', 'p', '_', 'p', 'r', 'o', 'f', 'i', 'l', 'e', '_', 'i', 'd'] then ['p', 'r', 'o', 'f'] else [])
+    = [(['r', 'o', 'u', 't', 'i', 'n', 'g', '_', 'i', 'd'], ['p', 'r', 'o', 'f'])] := by decide
 
 /-- … and the earlier one is sent when the later one's field is empty -/
 example :
     resolveExplicit tt
-      [⟨"table_name".toList, some ⟨[], "routing_id".toList, [.lit "projects".toList, .star], [.dstar]⟩⟩,
-       ⟨"app_profile_id".toList, some ⟨[], "routing_id".toList, [.dstar], []⟩⟩]
-      (fun f => if f = "table_name".toList then "projects/p/instances/i".toList else [])
-    = [("routing_id".toList, "projects/p".toList)] := by decide
+      [⟨['t', 'a', 'b', 'l', 'e', '_', 'n', 'a', 'm', 'e'], some ⟨[], ['r', 'o', 'u', 't', 'i', 'n', 'g', '_', 'i', 'd'], [.lit ['p', 'r', 'o', 'j', 'e', 'c', 't', 's'], .star], [.dstar]⟩⟩,
+       ⟨['a', 'p', 'p', '_', 'p', 'r', 'o', 'f', 'i', 'l', 'e', '_', 'i', 'd'], some ⟨[], ['r', 'o', 'u', 't', 'i', 'n', 'g', '_', 'i', 'd'], [.dstar], []⟩⟩]
+      (fun f => if f = ['t', 'a', 'b', 'l', 'e', '_', 'n', 'a', 'm', 'e'] then ['p', 'r', 'o', 'j', 'e', 'c', 't', 's', '/', 'p', '/', 'i', 'n', 's', 't', 'a', 'n', 'c', 'e', 's', '/', 'i'] else [])
+    = [(['r', 'o', 'u', 't', 'i', 'n', 'g', '_', 'i', 'd'], ['p', 'r', 'o', 'j', 'e', 'c', 't', 's', '/', 'p'])] := by decide
 
 /-- hypotheses of `explicit_last_wins_split` on routing.proto's example: the second parameter
     contributes under `routing_id` and nothing after it does -/
 example :
-    contrib tt (fun f => if f = "app_profile_id".toList then "prof".toList else [])
-      ⟨"app_profile_id".toList, some ⟨[], "routing_id".toList, [.dstar], []⟩⟩
-      = some ("routing_id".toList, "prof".toList) ∧
-    (∀ q ∈ ([] : List Param), paramKey q = "routing_id".toList →
-      contrib tt (fun f => if f = "app_profile_id".toList then "prof".toList else []) q = none) := by
+    contrib tt (fun f => if f = ['a', 'p', 'p', '_', 'p', 'r', 'o', 'f', 'i', 'l', 'e', '_', 'i', 'd'] then ['p', 'r', 'o', 'f'] else [])
+      ⟨['a', 'p', 'p', '_', 'p', 'r', 'o', 'f', 'i', 'l', 'e', '_', 'i', 'd'], some ⟨[], ['r', 'o', 'u', 't', 'i', 'n', 'g', '_', 'i', 'd'], [.dstar], []⟩⟩
+      = some (['r', 'o', 'u', 't', 'i', 'n', 'g', '_', 'i', 'd'], ['p', 'r', 'o', 'f']) ∧
+    (∀ q ∈ ([] : List Param), paramKey q = ['r', 'o', 'u', 't', 'i', 'n', 'g', '_', 'i', 'd'] →
+      contrib tt (fun f => if f = ['a', 'p', 'p', '_', 'p', 'r', 'o', 'f', 'i', 'l', 'e', '_', 'i', 'd'] then ['p', 'r', 'o', 'f'] else []) q = none) := by
   constructor
   · decide
   · intro q hq; cases hq
 
 /-- hypothesis of `explicit_absent` / `explicit_none_no_header`: a non-matching value contributes nothing -/
-example : ∀ p ∈ [(⟨"table_name".toList, some ⟨[], "routing_id".toList, [.lit "projects".toList, .star], [.dstar]⟩⟩ : Param)],
-    contrib tt (fun _ => "folders/f".toList) p = none := by
+example : ∀ p ∈ [(⟨['t', 'a', 'b', 'l', 'e', '_', 'n', 'a', 'm', 'e'], some ⟨[], ['r', 'o', 'u', 't', 'i', 'n', 'g', '_', 'i', 'd'], [.lit ['p', 'r', 'o', 'j', 'e', 'c', 't', 's'], .star], [.dstar]⟩⟩ : Param)],
+    contrib tt (fun _ => ['f', 'o', 'l', 'd', 'e', 'r', 's', '/', 'f']) p = none := by
   intro p hp
   simp only [List.mem_singleton] at hp
   subst hp
   decide
 
 /-- hypotheses of `capture_eq_scan`, `dstar_template_captures_all`, `star_template_exact` -/
-example : '\n' ∉ "projects/p1/x y&z/é".toList := by decide
+example : '\n' ∉ ['p', 'r', 'o', 'j', 'e', 'c', 't', 's', '/', 'p', '1', '/', 'x', ' ', 'y', '&', 'z', '/', 'é'] := by decide
 
 /-- hypotheses of `primary_path_first_nonempty`: `post` is the first non-empty verb -/
-example : (∀ x ∈ [([] : List Char), []], x = []) ∧ "/v1/{name}".toList ≠ [] := by
+example : (∀ x ∈ [([] : List Char), []], x = []) ∧ ['/', 'v', '1', '/', '{', 'n', 'a', 'm', 'e', '}'] ≠ [] := by
   constructor
   · intro x hx; simp at hx; exact hx
   · decide
 
 
-example : encodePairs [("k".toList, "a b/c&d".toList)] = "k=a+b/c%26d".toList := by decide
+/-- hypothesis of `attr_path_valid`: `book.class` has no empty segment (and `disambiguated_undotted`'s: `class` has no dot) -/
+example : (∀ c ∈ splitDots ['b','o','o','k','.','c','l','a','s','s'], c ≠ []) ∧ '.' ∉ ['c','l','a','s','s'] := by decide
+
+example : encodePairs [(['k'], ['a', ' ', 'b', '/', 'c', '&', 'd'])] = ['k', '=', 'a', '+', 'b', '/', 'c', '%', '2', '6', 'd'] := by decide
 
 /-! ## What the hypotheses exclude, and where the real code violates the statement
 (each input is replayed on the real code by the C06 check: corpus / excluded points) -/
 
 /-- a top-level reserved word is read from the suffixed attribute … -/
 theorem implicit_reserved_top_level :
-    disambiguated "class".toList = "class_".toList ∧ attrPathValid (disambiguated "class".toList) = true := by
+    disambiguated ['c','l','a','s','s'] = ['c','l','a','s','s','_'] ∧
+    attrPathValid (disambiguated ['c','l','a','s','s']) = true := by
   decide
 
 /-- … and suffixing never produces another reserved word. -/
 theorem suffixed_not_reserved :
     ∀ w ∈ Pinned.reservedNames, Pinned.reservedNames.contains (w ++ "_") = false := by decide
 
-/-- **DEFECT (DESIGN §9-F1)**: a dotted path variable with a keyword segment, `{book.class=…}`.
-`FieldHeader.disambiguated` looks up the whole dotted string, finds it is not reserved, and the
-emitted tuple entry is `("book.class", request.book.class)`: not a Python expression, so neither
-`client.py` nor `async_client.py` can be imported and no call carries the header. -/
-theorem implicit_attr_counterexample :
-    disambiguated "book.class".toList = "book.class".toList ∧
-    attrPathValid (disambiguated "book.class".toList) = false := by decide
+/-- regression witness for the repaired §9-F1 (`{book.class=…}`): the emitted tuple entry now reads
+`request.book.class_` (it read `request.book.class` before a11332b).  Instance of `attr_path_valid`. -/
+theorem implicit_dotted_keyword_regression :
+    disambiguated ['b','o','o','k','.','c','l','a','s','s'] = ['b','o','o','k','.','c','l','a','s','s','_'] ∧
+    attrPathValid (disambiguated ['b','o','o','k','.','c','l','a','s','s']) = true := by decide
 
-/-- **DEFECT**: explicit routing copies the field path into `request.<field>` without any
-disambiguation: a routing parameter on a field named by a keyword (`from`) emits `request.from`. -/
-theorem explicit_field_keyword_counterexample : attrPathValid "from".toList = false := by decide
+/-- regression witness for the repaired keyword routing field (`field: "from"`): explicit routing
+reads `request.from_` (52dedca) and still sends the key `from`. -/
+theorem explicit_field_keyword_regression :
+    disambiguated ['f','r','o','m'] = ['f','r','o','m','_'] ∧
+    attrPathValid (disambiguated ['f','r','o','m']) = true ∧
+    paramKey ⟨['f','r','o','m'], none⟩ = ['f','r','o','m'] := by decide
+
+/-- an empty routing rule (annotation present, no parameters; repaired by 8b196df) sends no header,
+    whatever the http rule says. -/
+theorem empty_rule_no_header (ct : ClassTables) (verbs : List (List Char)) (r : Request) :
+    header ct ⟨some [], verbs⟩ r = none := rfl
 
 /-- outside the quantifier (hypothesis of `capture_eq_scan`): a value containing a newline is not
 matched by `.*`; the template language would accept it. -/
 theorem newline_counterexample :
-    Model.Routing.capture tt ⟨[], "k".toList, [.dstar], []⟩ "a\nb".toList = none ∧
-    scanCapture ⟨[], "k".toList, [.dstar], []⟩ "a\nb".toList = some "a\nb".toList := by decide
+    Model.Routing.capture tt ⟨[], ['k'], [.dstar], []⟩ ['a', '\n', 'b'] = none ∧
+    scanCapture ⟨[], ['k'], [.dstar], []⟩ ['a', '\n', 'b'] = some ['a', '\n', 'b'] := by decide
 
 /-- outside the grammar (`Template.wf`): with `**` before the last segment the regex backtracks
 (`{k=a/**}/b` on `a/x/b` captures `a/x`), which the one-pass scanner does not follow. -/
 theorem dstar_not_last_counterexample :
-    (⟨[], "k".toList, [.lit "a".toList, .dstar], [.lit "b".toList]⟩ : Template).wf = false ∧
-    Model.Routing.capture tt ⟨[], "k".toList, [.lit "a".toList, .dstar], [.lit "b".toList]⟩ "a/x/b".toList
-      = some "a/x".toList ∧
-    scanCapture ⟨[], "k".toList, [.lit "a".toList, .dstar], [.lit "b".toList]⟩ "a/x/b".toList = none := by decide
+    (⟨[], ['k'], [.lit ['a'], .dstar], [.lit ['b']]⟩ : Template).wf = false ∧
+    Model.Routing.capture tt ⟨[], ['k'], [.lit ['a'], .dstar], [.lit ['b']]⟩ ['a', '/', 'x', '/', 'b']
+      = some ['a', '/', 'x'] ∧
+    scanCapture ⟨[], ['k'], [.lit ['a'], .dstar], [.lit ['b']]⟩ ['a', '/', 'x', '/', 'b'] = none := by decide
 
 /-- two named segments: the code raises `ValueError` at generation time (model: `manyNamed`). -/
 theorem many_named_rejected :
-    ofSegs [.named "a".toList [.star], .tok (.lit "x".toList), .named "b".toList [.star]] = .error (.manyNamed 2) := by
+    ofSegs [.named ['a'] [.star], .tok (.lit ['x']), .named ['b'] [.star]] = .error (.manyNamed 2) := by
   rfl
 
 end GapicModel.Props.C06
